@@ -706,8 +706,10 @@ def rule_base_units_cache(ck, ix):
         for n in cfg.nodes:
             if n.kind == "test":
                 cp = compare_parts(n.ast)
-                if cp and cp[0] in ("IsNot", "Is", "NotEq", "Eq") and {norm(cp[1]), norm(cp[2])} >= {"self._cache"} and any("_base_units_cache" in norm(x) for x in (cp[1], cp[2])):
-                    vtests.append((n.id, "t" if cp[0] in ("IsNot", "NotEq") else "f", [norm(x) for x in (cp[1], cp[2]) if norm(x) != "self._cache"][0]))
+                # (self._cache may have been read into a local first: sides are compared with temporaries resolved)
+                sides = [_shb.rnorm(x, fi.node) for x in cp[1:3]] if cp else []
+                if cp and cp[0] in ("IsNot", "Is", "NotEq", "Eq") and "self._cache" in sides and any("_base_units_cache" in x for x in sides):
+                    vtests.append((n.id, "t" if cp[0] in ("IsNot", "NotEq") else "f", [x for x in sides if x != "self._cache"][0]))
         key = "memo=Registry:_base_units_cache|dep=Registry:_cache|writer=_switch_context_cache_and_units"
         if not vtests:
             ck.fail("G-MEMO-INV", key, fi.loc(),
@@ -718,7 +720,7 @@ def rule_base_units_cache(ck, ix):
                      "memo validated against the identity of self._cache before it is read",
                      "the memo can be read on a path that skips the validation against self._cache", witness(cfg, p))
             resets = _reset_nodes(cfg, "self._base_units_cache")
-            upd = [n.id for n in cfg.nodes if n.kind == "stmt" and isinstance(n.ast, ast.Assign) and any(dotted(t) == src_attr for t in n.ast.targets) and norm(n.ast.value) == "self._cache"]
+            upd = [n.id for n in cfg.nodes if n.kind == "stmt" and isinstance(n.ast, ast.Assign) and any(dotted(t) == src_attr for t in n.ast.targets) and _shb.rnorm(n.ast.value, fi.node) == "self._cache"]
             for name, gates in (("resets-memo", resets), ("records-source", upd)):
                 bad = None
                 for sx in edge_successors(cfg, tid, stale_edge):
